@@ -207,8 +207,8 @@ CLAIMED = {
         "expr_wrapper=list, to an expression of nesting depth <= 3) and C17_statements_depth_chain_refuted (with the default chain_call the "
         "depth is >= n); for the full tree height (every child of every node counted): C17_statements_height_list, "
         "C17_guarded_statements_height_list (an `if c: break` followed by n statements in a while body lowers to height 7 for EVERY n: "
-        "the rest of the block sits under one test of the flag) and C17_continued_statements_height_list (same after `continue` in a "
-        "for loop). Partial: whether CPython accepts an expression of a given depth (C stack, parser limits, the recursion limit hit "
+        "the rest of the block sits under one test of the flag), C17_continued_statements_height_list (same after `continue` in a "
+        "for loop) and C17_returned_statements_height_list (after `return` in a function body). Partial: whether CPython accepts an expression of a given depth (C stack, parser limits, the recursion limit hit "
         "by CPython's own ast.unparse) is interpreter behaviour; it is measured on a geometric schedule over 30 program families (statements after an early exit included) with the "
         "default recursion limit. Two known findings (ast.unparse recursion; chain_call depth).",
    note=TRUST + "Acceptance limits of CPython are measured, not proved.",
